@@ -15,6 +15,37 @@ use std::time::Instant;
 
 pub const SHARDS: u64 = 16;
 
+/// heartbeat for the in-process watchdog: incremented whenever a case (or an enumeration step) completes
+pub static HEARTBEAT: std::sync::atomic::AtomicU64 = std::sync::atomic::AtomicU64::new(0);
+#[inline]
+pub fn beat() {
+    HEARTBEAT.fetch_add(1, std::sync::atomic::Ordering::Relaxed);
+}
+
+/// A case that does not finish (e.g. the library loops forever on some input) must not be reported as a
+/// violation and must not block the run for the wrapper's whole time limit: if no case completes for
+/// `secs` seconds the process exits with status 2 (inconclusive).
+pub fn start_watchdog(secs: u64) {
+    std::thread::spawn(move || {
+        let mut last = HEARTBEAT.load(std::sync::atomic::Ordering::Relaxed);
+        let mut idle = 0u64;
+        loop {
+            std::thread::sleep(std::time::Duration::from_secs(5));
+            let now = HEARTBEAT.load(std::sync::atomic::Ordering::Relaxed);
+            if now == last {
+                idle += 5;
+                if idle >= secs {
+                    eprintln!("WATCHDOG: no case completed for {secs}s (a case hangs); inconclusive");
+                    std::process::exit(2);
+                }
+            } else {
+                idle = 0;
+                last = now;
+            }
+        }
+    });
+}
+
 /// `--strict`: run the search with all known-finding exemptions disabled (used to (re)derive minimal replays)
 pub static STRICT: std::sync::atomic::AtomicBool = std::sync::atomic::AtomicBool::new(false);
 /// `--strict-class X`: disable only the exemption of known-finding class X (to derive a minimal replay of X)
@@ -163,6 +194,7 @@ pub struct PJob<T> {
 }
 
 fn run_case<T>(f: &CaseFn<T>, t: &T, stats: &mut Stats) -> Result<(), Fail> {
+    beat();
     match catch_unwind(AssertUnwindSafe(|| f(t, stats))) {
         Ok(r) => r,
         Err(p) => {
